@@ -1,8 +1,8 @@
-\* MCShrex_replay_scope.cfg -- generated from checks/X_limits.py (job sh_replay_scope); run: tlc -config MCShrex_replay_scope.cfg MCShrexLimits.tla
+\* MCShrex_defect_noclose.cfg -- generated from checks/X_limits.py (job sh_defect_noclose); run: tlc -config MCShrex_defect_noclose.cfg MCShrexLimits.tla
 CONSTANTS
   Peers = {1, 2}
   Protos = {1, 2}
-  Streams = {1, 2, 3}
+  Streams = {1, 2}
   PeerIP <- MCPeerIP
   Need <- MCNeed
   ProtoLim <- MCProtoLim
@@ -17,21 +17,20 @@ CONSTANTS
   ProtoLim2 = 3
   ProtoPeerLim1 = 1
   ProtoPeerLim2 = 2
-  SvcLim = 3
+  SvcLim = 1
   SvcPeerLim = 2
   SvcMem = 5
   SvcPeerMem = 4
   Burst = 2
   Rate = 1
   Grace = 1
-  RateOn = FALSE
-  Atomic = TRUE
-  CloseOnLimit = TRUE
+  RateOn = TRUE
+  Atomic = FALSE
+  CloseOnLimit = FALSE
   WatchTime = 0
   Hows = {"served", "failed", "panicked"}
 INIT MCInit
-NEXT MCNextNoWatch
-VIEW ViewReplay
-ACTION_CONSTRAINT EdgeOut
-INVARIANTS TypeOK CountersExact MemoryExact WithinLimits QuiescentFree ExpiryGrantsNothing BucketKeptWhileNotFull InitOut AddrOut
+VIEW View
 CHECK_DEADLOCK FALSE
+NEXT MCNextNoWatch
+INVARIANTS CountersExact
